@@ -81,7 +81,21 @@ type Session[K any] struct {
 	recentlyDeleted []K // last few keys removed by Delete (absent-probe candidates)
 
 	muts []mutation[K] // C15: every mutating call so far (replayed into a never-queried tree)
+
+	// ExtHistory, when set, supplies the witness history (sessions attached to a tree
+	// that another driver mutates: the driver owns the operation log)
+	ExtHistory func() []string
 }
+
+// Attach wraps a tree and a model that another driver keeps in lock-step, so that
+// the read-only monitors (CheckIter, CheckExtremes, CheckRanges, CheckPrefixes, CheckSize)
+// can be run on them at the driver's check points.
+func Attach[K any](k *kinds.Kind[K], cfg *Config, res *ev.Result, unit string, t art.Tree[K, uint64], m *ref.Map[K], hist func() []string) *Session[K] {
+	return &Session[K]{K: k, Cfg: cfg, Res: res, Unit: unit, every: 1, trace: ev.NewHasher(), T: t, M: m, ExtHistory: hist}
+}
+
+// SetModel replaces the model (drivers that rebuild it).
+func (s *Session[K]) SetModel(m *ref.Map[K]) { s.M = m }
 
 func NewSession[K any](k *kinds.Kind[K], cfg *Config, res *ev.Result, unit string) *Session[K] {
 	s := &Session[K]{K: k, Cfg: cfg, Res: res, Unit: unit, every: 1, trace: ev.NewHasher()}
@@ -103,6 +117,9 @@ func (s *Session[K]) log(format string, a ...any) {
 }
 
 func (s *Session[K]) History() []string {
+	if s.ExtHistory != nil {
+		return s.ExtHistory()
+	}
 	out := append([]string{}, s.hist...)
 	if s.histCut > 0 {
 		out = append(out[:100:100], append([]string{fmt.Sprintf("... %d operations elided ...", s.histCut)}, out[100:]...)...)
